@@ -188,6 +188,16 @@ func (p *WorkerPool) Stop() {
 	// Wait for all workers to finish
 	p.wg.Wait()
 
+	// Tasks that are still queued were accepted but will never run now: tell
+	// their submitters (a closed result channel reads as "not executed", and
+	// ExecuteWithWorker then runs the task itself) instead of leaving them
+	// blocked forever. The queue was closed above, so this loop terminates.
+	for task := range p.taskQueue {
+		if task.ResultChan != nil {
+			close(task.ResultChan)
+		}
+	}
+
 	p.logger.logger.Printf("Worker pool stopped")
 }
 
